@@ -98,15 +98,15 @@ def parseOp (s : S) (op : String) : Option (SOp × (S → String)) :=
 
 def bit (t : String) : Option Bool := if t == "1" then some true else if t == "0" then some false else none
 
-/-- the run-level steps `toolFileStep` / `toolDirStep` of the session model -/
+/-- the run-level steps `tstep` (`toolFileStep` / `toolDirStep`) of the session model -/
 def toolOp (s : S) (op : String) : Option (S × String) :=
   match op.splitOn ":" with
   | ["tf", p, sz, mt, ct, ign, cap, healthy, now, rnd] => do
-    let (s', up, c) := toolFileStep id s (← bytesOfHex p) ⟨← sz.toInt?, ← mt.toInt?, ← ct.toInt?⟩ (← bit ign)
-      (← bytesOfHex cap) (← bit healthy) (← now.toInt?) (← rnd.toNat?)
+    let (s', up, c) := tstep id s (.file (← bytesOfHex p) ⟨← sz.toInt?, ← mt.toInt?, ← ct.toInt?⟩ (← bit ign)
+      (← bytesOfHex cap) (← bit healthy) (← now.toInt?) (← rnd.toNat?))
     pure (s', s!"{tf up},{hexOfBytes c}")
   | ["td", es, d, healthy, now, rnd] => do
-    let (s', cr, c) := toolDirStep id s (← parseEntries es) (← bytesOfHex d) (← bit healthy) (← now.toInt?) (← rnd.toNat?)
+    let (s', cr, c) := tstep id s (.dir (← parseEntries es) (← bytesOfHex d) (← bit healthy) (← now.toInt?) (← rnd.toNat?))
     pure (s', s!"{tf cr},{hexOfBytes c}")
   | _ => none
 
